@@ -8,8 +8,11 @@ JS call site of categorizeAmount.
 from __future__ import annotations
 
 from .. import jsmini, norm
+import ast
+
 from ..core import Ctx
-from ..project import AnalysisError
+from ..flow import get_flow
+from ..project import AnalysisError, src
 
 LEVEL = 'translation_validation'
 JS = 'src/tally/spending_report.js'
@@ -110,6 +113,7 @@ def check(ctx: Ctx) -> None:
 
     # R3: special-tag literals outside the block
     _check_literals(ctx, toks)
+    _check_assets_current(ctx)
     _stats.update(programs=programs, disagreements=disagreements, atoms=atoms, samples=samples)
 
 
@@ -271,6 +275,23 @@ def _check_py_call_site(ctx):
         ctx.check(ok, 'C13.R2', fi, 'categorize_amount:args',
                   f'Python reference call passes {loopvar}[amount], {loopvar}[tags]',
                   f'Python call arguments do not derive from the iterated transaction: {sorted(a0)} / {sorted(a1)}', c)
+
+
+def _check_assets_current(ctx) -> None:
+    """The mirrored JavaScript only counts if it is the one the report runs: with external assets (--no-embedded-html) the .js / .css next to the
+    report are (re)written on every run, never kept because a file of that name is already there (an older tally release's classification)."""
+    proj = ctx.proj
+    ws = proj.func('report.write_summary_file_vue')
+    fl = get_flow(proj, ws)
+    writes = [c for c in fl.calls('write_text') if c.args and isinstance(c.args[0], ast.Name) and c.args[0].id in ('js_content', 'css_content')]
+    if len(writes) < 2:
+        ctx.unknown('C13.R3', ws, f'{len(writes)} asset writes (js_content / css_content) found in the external-assets branch')
+    for c in writes:
+        g = fl.cfg.guard_literals(fl.stmt_of(c))
+        stale = [(t, tr) for t, tr in g if 'exists' in t or 'isfile' in t or 'getmtime' in t]
+        ctx.check(not stale, 'C13.R3', ws, f'asset-current:{c.args[0].id}', f'{c.args[0].id} is written on every run',
+                  f'{src(c)[:50]!r} only happens under {stale}: a report directory that still holds the script of an earlier release keeps running the old classification, '
+                  f'which differs from what the command line computes', c)
 
 
 def _check_literals(ctx, toks):
